@@ -117,27 +117,69 @@ Definition rename_repo (r r' : string) (w : wstate) : rc * wstate :=
                       (labels_of r EmptyString w) (w_vmeta w) in
   delete_repo r {| w_meta := m1; w_vmeta := v1 |}.
 
-(* DeleteEntriesFromRepo: rewrite the index files that hold one of the paths *)
-Fixpoint scrub_indexes (n : nat) (r id : string) (i : N) (paths : list string) (m : mstore) : mstore :=
+(* DeleteEntriesFromRepo: drop the paths from every bundle; a bundle whose file lists change is laid
+   out again from the first list that changed (or that, not being the last one, was not full), its
+   descriptor updated when the number of lists shrinks and the surplus lists deleted *)
+Fixpoint read_indexes (n : nat) (r id : string) (i : N) (m : mstore) : option (list (list entry)) :=
+  match n with
+  | O => Some []
+  | S k => match mget (GetArchivePathToBundleFileList r id i) m with
+           | Some (VIndex es) => match read_indexes k r id (i + 1)%N m with Some t => Some (es :: t) | None => None end
+           | _ => None
+           end
+  end.
+Definition keep_entries (paths : list string) (es : list entry) : list entry :=
+  filter (fun e => negb (existsb (String.eqb (e_name e)) paths)) es.
+Fixpoint first_modified (E : nat) (paths : list string) (ls : list (list entry)) (i : nat) : option nat :=
+  match ls with
+  | [] => None
+  | es :: t =>
+      if negb (Nat.eqb (List.length (keep_entries paths es)) (List.length es))
+         || (match t with [] => false | _ => negb (Nat.eqb (List.length es) E) end)
+      then Some i else first_modified E paths t (S i)
+  end.
+Fixpoint overwrite_indexes (r id : string) (i : N) (cs : list (list entry)) (m : mstore) : mstore :=
+  match cs with
+  | [] => m
+  | c :: t => overwrite_indexes r id (i + 1)%N t (snd (mput (GetArchivePathToBundleFileList r id i) (VIndex c) false m))
+  end.
+Fixpoint drop_indexes (n : nat) (r id : string) (i : N) (m : mstore) : mstore :=
   match n with
   | O => m
-  | S k =>
-      let key := GetArchivePathToBundleFileList r id i in
-      let m' := match mget key m with
-                | Some (VIndex es) =>
-                    let es' := filter (fun e => negb (existsb (String.eqb (e_name e)) paths)) es in
-                    if Nat.eqb (List.length es') (List.length es) then m else snd (mput key (VIndex es') false m)
-                | _ => m
-                end in
-      scrub_indexes k r id (i + 1)%N paths m'
+  | S k => drop_indexes k r id (i + 1)%N (snd (mdelete (GetArchivePathToBundleFileList r id i) m))
   end.
-Definition delete_entries (r : string) (paths : list string) (w : wstate) : rc * wstate :=
+Definition relayout (E : nat) (es : list entry) : list (list entry) :=
+  match chunk E es with [] => [[]] | cs => cs end.
+Definition scrub_bundle (E : nat) (r id : string) (c : N) (paths : list string) (m : mstore) : option mstore :=
+  match read_indexes (N.to_nat c) r id 0%N m with
+  | None => None
+  | Some ls =>
+      match first_modified E paths ls 0 with
+      | None => Some m
+      | Some f =>
+          let cs := relayout E (keep_entries paths (List.concat ls)) in
+          let m1 := overwrite_indexes r id (N.of_nat f) (skipn f cs) m in
+          if Nat.eqb (List.length cs) (N.to_nat c) then Some m1
+          else Some (drop_indexes (N.to_nat c - List.length cs) r id (N.of_nat (List.length cs))
+                       (snd (mput (GetArchivePathToBundle r id) (VBundle id (N.of_nat (List.length cs))) false m1)))
+      end
+  end.
+Fixpoint scrub_bundles (E : nat) (r : string) (paths : list string) (ids : list string) (m : mstore) : rc * mstore :=
+  match ids with
+  | [] => (ROk, m)
+  | id :: t =>
+      match mget (GetArchivePathToBundle r id) m with
+      | Some (VBundle _ c) =>
+          match scrub_bundle E r id c paths m with
+          | Some m' => scrub_bundles E r paths t m'
+          | None => (RErr, m)
+          end
+      | _ => (RErr, m)
+      end
+  end.
+Definition delete_entries (r : string) (paths : list string) (E : nat) (w : wstate) : rc * wstate :=
   if negb (repo_exists r w) then (RErr, w) else
-  (ROk, with_meta w (fold_left (fun m id =>
-          match mget (GetArchivePathToBundle r id) m with
-          | Some (VBundle _ c) => scrub_indexes (N.to_nat c) r id 0%N paths m
-          | _ => m
-          end) (bundles_of r w) (w_meta w))).
+  let '(c, m) := scrub_bundles E r paths (bundles_of r w) (w_meta w) in (c, with_meta w m).
 
 (* RepoSquash: keep the n most recent committed bundles, plus labelled ones on request *)
 Inductive tagmode := TNone | TAll | TSemver.
